@@ -24,8 +24,25 @@ impl LitKind {
             LitKind::Sym => parse_lit_prefix(s).map(|x| x.1),
             LitKind::Val => {
                 if s.starts_with('[') {
-                    // array literals: only well-formed ones are ever generated
-                    return s.find(']').map(|e| e + 1);
+                    // array literal: comma separated numbers (optional sign, optional leading
+                    // dot) or true / false, blanks around the elements; anything else between
+                    // the brackets is no literal
+                    let e = s.find(']')?;
+                    let number = |x: &str| {
+                        let x = x.strip_prefix(['-', '+']).unwrap_or(x);
+                        let x = x.strip_prefix('.').map(|r| (r, true)).unwrap_or((x, false));
+                        let (int, frac) = match x.0.split_once('.') {
+                            Some((a, b)) if !x.1 => (a, Some(b)),
+                            Some(_) => return false,
+                            None => (x.0, None),
+                        };
+                        !int.is_empty() && int.bytes().all(|c| c.is_ascii_digit()) && frac.map(|f| !f.is_empty() && f.bytes().all(|c| c.is_ascii_digit())).unwrap_or(true)
+                    };
+                    let ok = s[1..e].split(',').all(|el| {
+                        let el = el.trim();
+                        el == "true" || el == "false" || number(el)
+                    });
+                    return if ok { Some(e + 1) } else { None };
                 }
                 for w in ["true", "false"] {
                     if s.starts_with(w) {
